@@ -55,7 +55,7 @@ fn logical(m: &[u8; 16], s: usize) -> [u8; 16] {
     a
 }
 
-//@ harness name=kuz_compact_leaf_lsx prop=C07,C20 tier=thorough bits=256 est=300 cap=7200 desc="L (proof script): lsx(b, k) == oracle L(S(b ^ k)) for all 2^256 (b, k): X and S directly, then each of the sixteen l_step(., i) against one R of the oracle under the rotating-index correspondence, finally the leaf itself against the replayed value"
+//@ harness name=kuz_compact_leaf_lsx prop=C07,C20 tier=thorough bits=256 est=300 cap=900 desc="L (proof script): lsx(b, k) == oracle L(S(b ^ k)) for all 2^256 (b, k): X and S directly, then each of the sixteen l_step(., i) against one R of the oracle under the rotating-index correspondence, finally the leaf itself against the replayed value"
 verif_harness! {
     name: kuz_compact_leaf_lsx,
     bytes: 32,
@@ -88,7 +88,7 @@ verif_harness! {
     }
 }
 
-//@ harness name=kuz_compact_leaf_lsx_inv prop=C07,C20 tier=thorough bits=256 est=300 cap=7200 desc="L (proof script): lsx_inv(b, k) == oracle S^-1(L^-1(b ^ k)) for all 2^256 (b, k): each l_step(., 15 - i) against one R^-1 of the oracle, then S^-1 through P_INV, finally the leaf itself"
+//@ harness name=kuz_compact_leaf_lsx_inv prop=C07,C20 tier=thorough bits=256 est=300 cap=900 desc="L (proof script): lsx_inv(b, k) == oracle S^-1(L^-1(b ^ k)) for all 2^256 (b, k): each l_step(., 15 - i) against one R^-1 of the oracle, then S^-1 through P_INV, finally the leaf itself"
 verif_harness! {
     name: kuz_compact_leaf_lsx_inv,
     bytes: 32,
